@@ -310,6 +310,23 @@ func (f *FuncCFG) exit(client FlowClient, b *cfg.Block, r *ast.ReturnStmt, st *F
 }
 
 func (f *FuncCFG) trackBoolAssign(n ast.Node, stable map[types.Object]bool, st *FState) {
+	if vs, ok := n.(*ast.ValueSpec); ok {
+		// go/cfg adds each var ValueSpec as its own node: `var x bool` starts false, `var x = true` is constant
+		for i, id := range vs.Names {
+			o := f.Info.ObjectOf(id)
+			if !stable[o] {
+				continue
+			}
+			if len(vs.Values) == 0 {
+				st.Bools[o.Name()] = false
+			} else if i < len(vs.Values) {
+				if v, ok := boolConst(f.Info, vs.Values[i]); ok {
+					st.Bools[o.Name()] = v
+				}
+			}
+		}
+		return
+	}
 	a, ok := n.(*ast.AssignStmt)
 	if !ok {
 		return
